@@ -167,7 +167,12 @@ theorem c08_effect_cleared_only_by_invocation (P : Params) (s s' : State) (l : L
     `Dequeue` removes an element that is present, EXPIRED at the specification's clock and of MINIMAL
     deadline, and either call may instead fail with a context error WITHOUT effect; every call takes
     effect exactly once between its invocation and its response (`Ekit.Conc.Linearizable`).
-    This is also what the driver's `model` mode searches for in an observed history. -/
+    This is also what the driver's `model` mode searches for in an observed history.
+    CAVEAT (review): clock advances are not events of the history and `timedSpec.apply` may advance
+    its clock by any `n`, so the conjunct "expired at the specification's clock" does not constrain the
+    history; the time-dependent statement, in which `tick`s ARE events and only they move the
+    specification's clock, is `c08_linearizable_clocked` in Ekit/Props/C08Rev.lean.  "Never early" for
+    the model's own clock is `c08_dequeue_expired` / `c08_returned_expired`. -/
 theorem c08_linearizable_timed (P : Params) (ls : List Label) (s : State)
     (hrun : (sys P).toSystem.run (sys P).init ls = some s) :
     Linearizable (timedSpec P) ((sys P).history ls) :=
